@@ -247,10 +247,9 @@ def run(ctx: Ctx, rep: Report, tier: str):
     rep.rule("C01.R18", "a folder delete that meets children makes progress: the children are looked up under the folder's current path on the deleting side and force-synced, "
              "and so is the folder (C04.R7) - otherwise the delete is retried until it is given up and the trees stay different", 3)
     section(rep, lambda: dir_delete_rechecks_kids(ctx, rep, "C01.R18"))
-    from rules.common import disposal_conditions
-    rep.rule("C01.R19", "work is dropped only where the state machine says so: every ignore / unignore / clear of an entry in the engine's decision code is reached under exactly "
-             "the inventoried path condition (rules/disposal.json, 24 sites)", 20)
-    section(rep, lambda: disposal_conditions(ctx, rep, "C01.R19"))
+    from rules.decisions import decision_table as _dt, table_sites as _ts
+    rep.rule("C01.R19", "work is dropped only where the state machine says so: every ignore / unignore / clear of an entry or an entry half in the engine is taken in exactly the set of states the decision table records (the disposal rows of rules/decisions.json over all its functions)", _ts(None, r"\.(ignore|unignore|clear)\("))
+    section(rep, lambda: _dt(ctx, rep, "C01.R19", None, r"\.(ignore|unignore|clear)\("))
     from rules.common import retry_thresholds_ordered
     rep.rule("C01.R20", "retry thresholds are ordered: in handle_cloud_file_not_found_error plain punting stops strictly below the give-up threshold, so the recovery between them runs", 1)
     section(rep, lambda: retry_thresholds_ordered(ctx, rep, "C01.R20"))
@@ -258,5 +257,7 @@ def run(ctx: Ctx, rep: Report, tier: str):
     _alias(rep, ["C07.R4"], "C01.R21", "two different files of one name never end up booked as equal: an existing peer file is adopted silently only when its hash equals the hash "
            "of the bytes being created, computed by the same provider (C07.R4)", 3, lambda: _C07b(ctx, rep).r4())
     from rules.decisions import decision_table, table_sites
-    rep.rule("C01.R22", "decision table of the sync step, the creation path, completion and the change count: every action site (return value, handler / state / provider call with the parameters it passes, priority / ignored / exists / changed / sync_path / sync_hash store, slot graft, continue, raise) is reached under exactly the path condition the audited table rules/decisions.json records for it - the engine takes each action in the same set of entry states, on the same side", table_sites("C01"))
-    section(rep, lambda: decision_table(ctx, rep, "C01.R22", "C01"))
+    rep.rule("C01.DT", "decision table (rules/decisions.json) of the sync step, the creation path, completion, the change count and the entry predicates: for every function and every action shape (an impure call with the parameters it passes, a store to an "
+             "attribute or item, a delete, a returned constant, a yield, a raise) the set of states - over the function's guard atoms - in which the action is taken "
+             "equals the recorded one; compared as canonical decision diagrams, so any equivalent respelling of the guards is the same table", table_sites("C01"))
+    section(rep, lambda: decision_table(ctx, rep, "C01.DT", "C01"))
